@@ -36,14 +36,44 @@ func checkRequireJSON(req *protocol.Request, tagInfo TagInfo) bool {
 	if !strings.EqualFold(utils.FilterContentType(ct), consts.MIMEApplicationJSON) {
 		return false
 	}
-	result := gjson.GetBytes(req.Body(), tagInfo.JSONName)
-	if !result.Exists() {
+	if !jsonKeyExists(req.Body(), tagInfo.JSONName) {
 		idx := strings.LastIndex(tagInfo.JSONName, ".")
 		// There should be a superior if it is empty, it will report 'true' for required
-		if idx > 0 && !gjson.GetBytes(req.Body(), tagInfo.JSONName[:idx]).Exists() {
+		if idx > 0 && !jsonKeyExists(req.Body(), tagInfo.JSONName[:idx]) {
 			return true
 		}
 		return false
+	}
+	return true
+}
+
+// jsonKeyExists looks the dotted name up the way the body decoder fills fields: a key
+// that is spelled exactly like the name, or else one that equals it ignoring case
+// (the rule of encoding/json).
+func jsonKeyExists(body []byte, jsonName string) bool {
+	if gjson.GetBytes(body, jsonName).Exists() {
+		return true
+	}
+	cur := gjson.ParseBytes(body)
+	for _, name := range strings.Split(jsonName, ".") {
+		if !cur.IsObject() {
+			return false
+		}
+		var next gjson.Result
+		cur.ForEach(func(key, value gjson.Result) bool {
+			if key.String() == name {
+				next = value
+				return false
+			}
+			if !next.Exists() && strings.EqualFold(key.String(), name) {
+				next = value
+			}
+			return true
+		})
+		if !next.Exists() {
+			return false
+		}
+		cur = next
 	}
 	return true
 }
@@ -54,6 +84,5 @@ func keyExist(req *protocol.Request, tagInfo TagInfo) bool {
 	if !strings.EqualFold(utils.FilterContentType(ct), consts.MIMEApplicationJSON) {
 		return false
 	}
-	result := gjson.GetBytes(req.Body(), tagInfo.JSONName)
-	return result.Exists()
+	return jsonKeyExists(req.Body(), tagInfo.JSONName)
 }
